@@ -97,7 +97,7 @@ CLAIMS = {
                  "grapheme's length, change only single ASCII letters and only inside the span; g? keeps the text outside the span, maps char by char, is an "
                  "involution and fixes non-letters. Every run traces the real editor at LineBuf::exec_cmd (MotionKind, verb, register, text, real segmentation, "
                  "cursor/clamp, all registers before and after) and checks each pair directly against the property and against the Lean verb model.",
-        "note": NOTE_COMMON + " Simple motions (h l 0 ^ $ | gg G, whole buffer) are modelled (Model/Motions.lean): l and h never cross or land on a line terminator, every position they produce lies inside the text, so an operator applied to them gets a range s <= e <= len; the model's MotionKind is compared with the real eval_motion's on every such command of the run. The word scanners (w W e E b B, counts, cw) are modelled over character classes (Model/Words.lean): w/W never move backwards and land on a non-blank or at the end, b/B never move forwards, results inside the text; compared with the real scanners on every word motion of the run. For the other motions and text objects the motion engine (which span a motion denotes) is an input here, not verified; puts from line/block registers and visual-block "
+        "note": NOTE_COMMON + " Simple motions (h l 0 ^ $ | gg G, whole buffer) are modelled (Model/Motions.lean): l and h never cross or land on a line terminator, every position they produce lies inside the text, so an operator applied to them gets a range s <= e <= len; the model's MotionKind is compared with the real eval_motion's on every such command of the run. The word scanners (w W e E b B, counts, cw) are modelled over character classes (Model/Words.lean): w/W never move backwards and land on a non-blank or at the end, b/B never move forwards, results inside the text; compared with the real scanners on every word motion of the run. The delimiter layer is modelled (Model/Delims.lean): `%` (the nesting scan is characterised soundly and completely: the answer is the first partner delimiter at which the nesting of that kind returns to zero; `%` from a closer was broken at the pinned commit and is repaired by fix 3a24e4e, the old scan kept with a kernel-checked witness), `[(` `])` `[{` `]}` (an unescaped delimiter of the kind asked for on the right side of the cursor), the bracket objects i( a( i[ a] i{ a} i< a> and the quote objects (the span lies between an unescaped opener and a later unescaped closer / between two quotes on the cursor's line); each is compared with the real eval_motion's MotionKind on every such command of the run, with a generated family of nested, unbalanced and escaped delimiters and quotes. For the other motions and text objects the motion engine (which span a motion denotes) is an input here, not verified; puts from line/block registers and visual-block "
                 "register contents are compared on the implementation only through the direct oracle (text side), not modelled; Indent/Dedent/JoinLines/Equalize and ex "
                 "verbs are outside C08's operator list (ex is C16). Pre-states with a stale offset cache are skipped and counted (C09 owns freshness).",
         "technique": "Lean 4 proof (frame theorems quantified over MotionKind, registers and buffers) + per-verb correspondence and direct property oracle through the exec_cmd trace hook",
@@ -137,7 +137,7 @@ CLAIMS = {
                  "graphemes; the only panic (selection ending past the text) is excluded by the selection-inside-text invariant, with the pre-fix witness kept. "
                  "Every run feeds the real read_field's own (start cursor, post text, real segmentation, end cursor, selection) to the model and compares the field, "
                  "checks that motion/selection/yank commands leave the text byte-identical, and checks the field against the cursor-span / whole-line specification.",
-        "note": NOTE_COMMON + " PARTIAL: 'passive commands keep the text' is checked on the implementation for every generated command (and thorough: exhaustively on a small scope) but is not yet a theorem about the editor model; for text objects and block selections the selected text is the editor's own select_range.",
+        "note": NOTE_COMMON + " PARTIAL: 'passive commands keep the text' is checked on the implementation for every generated command (and thorough: exhaustively on a small scope) but is not yet a theorem about the editor model; for text objects the selected text is the editor's own select_range; for block selections it is additionally computed from the two cursors alone (the rectangle between them, each row cut at its line's last character) whenever both corners sit on characters (a corner on a line terminator is counted, not judged: the property does not say what is selected there).",
         "technique": "Lean 4 proof parametric in the key engine (quantified over cursors, text and selection) + correspondence at read_field's boundary through the session hook",
     },
     "C18": {
